@@ -22,7 +22,7 @@ fn verif_native_core_eval_witness() {
     std::panic::set_hook(Box::new(|_| {}));
     let mut n = 0;
     let mut bad: Vec<String> = Vec::new();
-    let cases: [(&str, &str, &str); 58] = [
+    let cases: [(&str, &str, &str); 66] = [
         // ---- lexical scope: the innermost binding, found where the procedure was CREATED
         ("(define x 1) (define (f) x) (define (g x) (f)) (g 2)", "value 1", "lexical, not dynamic, scope"),
         ("(define (make-adder n) (lambda (x) (+ x n))) ((make-adder 3) 4)", "value 7", "a closure sees the frame it was created in"),
@@ -34,6 +34,15 @@ fn verif_native_core_eval_witness() {
         ("(define (a x) (lambda (y) (lambda (z) (+ x (* 10 y) (* 100 z))))) (((a 1) 2) 3)", "value 321", "three nested frames"),
         ("((lambda (car) (car 5)) (lambda (x) (+ x 1)))", "value 6", "a parameter shadows a builtin"),
         ("(define y 1) (define (f) (define y 2) y) (+ (f) y)", "value 3", "an internal definition shadows a global inside the body only"),
+        // ... every builtin name is an ordinary variable: rebound, the user's binding is what a call (also the test of an if) uses
+        ("(define (pick not x) (+ 1 (if (not x) 10 20))) (pick (lambda (v) v) 5)", "value 11", "`not` rebound by a parameter, as the test of an if in operand position"),
+        ("(define (pick not x) (+ 1 (if (not x) 10 20))) (pick (lambda (v) v) #f)", "value 21", "`not` rebound by a parameter (false case)"),
+        ("(define (g x) (define (not v) v) (car (cons (if (not x) 'yes 'no) 0))) (g 7)", "value yes", "`not` rebound by an internal definition"),
+        ("(define (h not) (cons (if (not 3) 'taken 'skipped) '())) (h (lambda (v) v))", "value (taken)", "`not` rebound, if as an operand"),
+        ("(define (p car) (+ 0 (if (car 1) 1 2))) (p (lambda (v) #f))", "value 2", "`car` rebound as the test's operator"),
+        ("(define (q eqv?) (+ 0 (if (eqv? 1 1) 1 2))) (q (lambda (a b) #f))", "value 2", "`eqv?` rebound as the test's operator"),
+        ("(define (r + a) (+ a 1)) (r (lambda (a b) (* a 10)) 4)", "value 40", "`+` rebound by a parameter"),
+        ("(define (s if-like) (if-like 1 2)) (s (lambda (a b) b))", "value 2", "an ordinary name in operator position"),
         ("(define x 1) (define (get) x) (define x 2) (get)", "value 2", "a procedure sees the current value of a global"),
         // ---- parameters: fixed, rest, define sugar
         ("((lambda (x y) (- x y)) 5 3)", "value 2", "arguments bind to parameters in order"),
